@@ -1,6 +1,6 @@
 use vstd::prelude::*;
 use crate::common::traits::{Serialize, Loggable};
-use crate::error::{InternalError, RequestError};
+use crate::error::*;
 use crate::exception::{ExceptionCode, spec_exception_value};
 use crate::types::{coil_to_u16, AddressRange, Indexed, AddressIterator};
 use crate::shims::scursor::{WriteCursor, appended};
@@ -22,6 +22,7 @@ impl Serialize for AddressRange {
     open spec fn ser_pre(&self) -> bool { true }
     open spec fn ser_ok(&self, out: Seq<u8>) -> bool { is_be16_pair(out, self.start, self.count) }
     open spec fn ser_exc(&self, e: ExceptionCode) -> bool { false }
+    open spec fn ser_may_reject(&self) -> bool { false }
 //@fn rodbus/src/common/serialize.rs | Serialize for AddressRange::serialize | tags=C01,C03 | r10
 }
 impl Loggable for AddressRange {}
@@ -30,6 +31,7 @@ impl Serialize for crate::exception::ExceptionCode {
     open spec fn ser_pre(&self) -> bool { true }
     open spec fn ser_ok(&self, out: Seq<u8>) -> bool { out.len() == 1 && out[0] == spec_exception_value(*self) }
     open spec fn ser_exc(&self, e: ExceptionCode) -> bool { false }
+    open spec fn ser_may_reject(&self) -> bool { false }
 //@fn rodbus/src/common/serialize.rs | Serialize for crate::exception::ExceptionCode::serialize | tags=C01 | r10
 }
 impl Loggable for ExceptionCode {}
@@ -38,6 +40,7 @@ impl Serialize for Indexed<bool> {
     open spec fn ser_pre(&self) -> bool { true }
     open spec fn ser_ok(&self, out: Seq<u8>) -> bool { is_be16_pair(out, self.index, if self.value { 0xFF00u16 } else { 0u16 }) }
     open spec fn ser_exc(&self, e: ExceptionCode) -> bool { false }
+    open spec fn ser_may_reject(&self) -> bool { false }
 //@fn rodbus/src/common/serialize.rs | Serialize for Indexed<bool>::serialize | tags=C01,C03 | r10
 }
 impl Loggable for Indexed<bool> {}
@@ -46,6 +49,7 @@ impl Serialize for Indexed<u16> {
     open spec fn ser_pre(&self) -> bool { true }
     open spec fn ser_ok(&self, out: Seq<u8>) -> bool { is_be16_pair(out, self.index, self.value) }
     open spec fn ser_exc(&self, e: ExceptionCode) -> bool { false }
+    open spec fn ser_may_reject(&self) -> bool { false }
 //@fn rodbus/src/common/serialize.rs | Serialize for Indexed<u16>::serialize | tags=C01,C03 | r10
 }
 impl Loggable for Indexed<u16> {}
